@@ -22,6 +22,10 @@
 //	cont:<id>:<num>                                            peer acknowledges an uploaded block (2.31)
 //	bad:<id>                                                   peer responds with an undecodable block option
 //	req:<n>:<con|non>:<resplen>                                peer request (GET), handler answers resplen bytes
+//	reqs:<from>:<count>                                        count confirmable peer requests <from>…, each answered (and cached)
+//	nblk:<num>:<more>                                          peer answers the last request of the connection that asks for a
+//	                                                           following block (Block2 num > 0) — the follow-up GET of a block-wise
+//	                                                           notification runs under a token of its own — with block num
 //	reqb2:<n>:<num>                                            peer fetches block num of that answer
 //	up:<n>:<num>:<more>                                        peer uploads one block of a POST body
 //	cancel:<id> · sleep:<ms> · tick · close · settle · end     (end: cancel every context)
@@ -108,6 +112,7 @@ type world struct {
 	liveObs  map[int]bool
 	last     map[string]sent // last request sent per token
 	lastPing sent
+	lastBlk  sent // last request sent that asks for a following block (Block2 num > 0)
 	nextMid  int32
 	respLen  map[string]int // peer request token -> answer length
 }
@@ -199,6 +204,9 @@ func (w *world) absorb() {
 	for _, s := range w.taken() {
 		if s.code >= codes.GET && s.code <= codes.DELETE {
 			w.last[s.tok] = s
+			if s.b2 >= 16 { // Block2 option value with num > 0
+				w.lastBlk = s
+			}
 		}
 		if (w.udp && s.code == codes.Empty && s.typ == message.Confirmable) || (!w.udp && s.code == codes.Ping) {
 			w.lastPing = s
@@ -459,6 +467,34 @@ func (w *world) apply(f []string) {
 			t = message.Confirmable
 		}
 		if err := w.inject(w.build(t, codes.GET, peerTok(n), int32(50000+n), nil, func(m *pool.Message) { _ = m.SetPath("/srv") })); err != nil {
+			panic(err)
+		}
+	case f[0] == "reqs" && len(f) == 3:
+		from, count := atoi(f[1]), atoi(f[2])
+		for n := from; n < from+count; n++ {
+			w.mu.Lock()
+			w.respLen[lp.Hex(peerTok(n))] = 4
+			w.mu.Unlock()
+			if err := w.inject(w.build(message.Confirmable, codes.GET, peerTok(n), int32(50000+n), nil, func(m *pool.Message) { _ = m.SetPath("/srv") })); err != nil {
+				panic(err)
+			}
+		}
+	case f[0] == "nblk" && len(f) == 3:
+		num, more := atoi(f[1]), f[2] == "1"
+		if w.lastBlk.tok == "" {
+			return
+		}
+		tok, _ := lp.ParseHex(w.lastBlk.tok)
+		typ := message.NonConfirmable
+		mid := w.nextMid
+		w.nextMid++
+		if w.lastBlk.typ == message.Confirmable {
+			typ = message.Acknowledgement
+			mid = w.lastBlk.mid
+		}
+		if err := w.inject(w.build(typ, codes.Content, tok, mid, body(16), func(m *pool.Message) {
+			m.SetOptionUint32(message.Block2, blockVal(int64(num), more))
+		})); err != nil {
 			panic(err)
 		}
 	case f[0] == "reqb2" && len(f) == 3:
